@@ -1571,8 +1571,11 @@ impl<'a, const C: usize, const R: usize, T: 'a + Copy + std::fmt::Debug> Layout<
         use crate::action::Action::*;
         let x = coord.0 as usize;
         let y = coord.1 as usize;
-        assert!(x <= self.layers[0].len());
-        assert!(y <= self.layers[0][0].len());
+        if x >= self.layers[0].len() || y >= self.layers[0][0].len() {
+            // Virtual coordinates (e.g. the ones chords v2 activates its actions on) have no
+            // cell in the layers, so there is nothing for a transparent action to fall back to.
+            return &NoOp;
+        }
         for layer in layer_stack {
             assert!(usize::from(layer) <= self.layers.len());
             let action = &self.layers[usize::from(layer)][x][y];
@@ -1624,7 +1627,8 @@ impl<'a, const C: usize, const R: usize, T: 'a + Copy + std::fmt::Debug> Layout<
                 self.rpt_action = Some(action);
             }
             Src => {
-                let action = &self.src_keys[usize::from(coord.1)];
+                // A virtual coordinate (chords v2) has no defsrc key.
+                let action = self.src_keys.get(usize::from(coord.1)).unwrap_or(&NoOp);
                 // Risk: infinite recursive resulting in stack overflow.
                 // In practice this is not expected to happen.
                 // The `src_keys` actions are all expected to be `KeyCode` or `NoOp` actions.
